@@ -19,7 +19,7 @@ from .. import cover, emmon, gen, ref, world
 
 LEVEL = 'exploration'
 JOBS = {'quick': 4, 'thorough': 16}
-REQUIRED_MONITORS = ('em_shape_contract', 'locality')
+REQUIRED_MONITORS = ('em_shape_contract', 'locality', 'retained_results')
 REQUIRED_CLASSES = ('deformation:small', 'deformation:large', 'displaced:anchor', 'displaced:frame-neighbour',
                     'displaced:other', 'displacement:small', 'displacement:far', 'embedded:extrapolate',
                     'geometry:generic', 'geometry:partial-collinear', 'geometry:linear-z', 'argument:same-object-mutated-in-place',
@@ -90,6 +90,7 @@ def run_gen(ctx, case):
                 return persistent
             ctx.hit('argument:fresh-copy')
             return emmon.with_positions(refm, conf_)
+        kept = []
         for c in range(K):
             frac = 10.0 ** rng.uniform(-2, 0)
             conf = pos + rng.normal(size=pos.shape) * bond * frac
@@ -100,11 +101,23 @@ def run_gen(ctx, case):
                 ctx.count('rejected_conformation_illconditioned')
                 continue
             w = {'edges': edges, 'ref': pos, 'target': tpos, 's': s, 'conformation': conf}
+            # the molecules returned for earlier conformations are kept and looked at again: their atoms must stay where
+            # the shape law puts them for THEIR conformation, whatever is mapped afterwards
+            for (res_old, snap_old, c_old) in kept:
+                ctx.monitor('retained_results')
+                if not np.array_equal(np.array(res_old.atoms_positions), snap_old):
+                    ctx.violation('not-local:earlier-result-follows-later-calls',
+                                  f'the molecule mapped from conformation {c_old} changed after other conformations were mapped '
+                                  f'(max shift {np.abs(np.array(res_old.atoms_positions) - snap_old).max():.3g})', witness=w)
+                    kept.clear()
+                    break
             try:
-                out0 = np.array(emap(argument(conf, c)).atoms_positions)   # shape contract fires here
+                res0 = emap(argument(conf, c))                              # shape contract fires here
+                out0 = np.array(res0.atoms_positions)
             except Exception as exc:  # noqa
                 ctx.violation(f'map-raises:{type(exc).__name__}', str(exc)[:200], witness=w)
                 continue
+            kept.append((res0, out0.copy(), c))
             ctx.count('evaluations')
             ctx.hit('deformation:' + ('small' if frac < 0.1 else 'large'))
             if len(model.anchors) >= 2:
